@@ -97,6 +97,10 @@ func (s *Sim) joinFence() {
 			}
 		}
 		if !pending {
+			// The state flips before the group's goroutine has left validate(); its
+			// recursive RLock deadlocks against the next queued signal's write lock.
+			// There is nothing to observe for "validate returned": give it ample time.
+			time.Sleep(200 * time.Microsecond)
 			return
 		}
 		time.Sleep(50 * time.Microsecond)
